@@ -99,13 +99,41 @@ int main(int argc, char **argv)
 	sqfs_istream_t *sortfile = NULL;
 	void *sehnd = NULL;
 	void *xattrmap = NULL;
+	char *abs_out = NULL;
 	sqfs_writer_t sqfs;
 	options_t opt;
 
 	process_command_line(&opt, argc, argv);
 
-	if (sqfs_writer_init(&sqfs, &opt.cfg))
+#if !defined(_WIN32) && !defined(__WINDOWS__)
+	/* pack_files() changes the working directory. Make sure the output
+	   path stays valid, so a partial image can be removed on failure. */
+	if (opt.packdir != NULL && opt.cfg.filename[0] != '/') {
+		char cwd[PATH_MAX];
+
+		if (getcwd(cwd, sizeof(cwd)) == NULL) {
+			perror("getcwd");
+			free(opt.packdir);
+			return EXIT_FAILURE;
+		}
+
+		abs_out = malloc(strlen(cwd) + strlen(opt.cfg.filename) + 2);
+		if (abs_out == NULL) {
+			perror(opt.cfg.filename);
+			free(opt.packdir);
+			return EXIT_FAILURE;
+		}
+
+		sprintf(abs_out, "%s/%s", cwd, opt.cfg.filename);
+		opt.cfg.filename = abs_out;
+	}
+#endif
+
+	if (sqfs_writer_init(&sqfs, &opt.cfg)) {
+		free(opt.packdir);
+		free(abs_out);
 		return EXIT_FAILURE;
+	}
 
 	/* forced owner IDs also apply to the root and implicit directories */
 	if (!(opt.dirscan_flags & DIR_SCAN_KEEP_UID)) {
@@ -186,5 +214,6 @@ out:
 	if (sortfile != NULL)
 		sqfs_drop(sortfile);
 	free(opt.packdir);
+	free(abs_out);
 	return status;
 }
